@@ -704,7 +704,11 @@ func anchorList(byKind map[string]map[anchorPos]int, kinds []string) string {
 // runNamed: an error raised while loading a named template identifies it by name.
 // c20Broken: one source per way in which the tokeniser or the parser can refuse a template (every tag with a
 // missing or wrong part, every kind of malformed expression), so that every error constructor is exercised.
+// c20Missing stands for "the named template does not exist in the loader at all".
+const c20Missing = "\x00missing"
+
 var c20Broken = []string{
+	c20Missing,
 	"ok {% if x %} unclosed", "a {{ 1 + }} b", "x {% zork %} y", "{{ 'unclosed }}", "line1\nline2 {% for %}", "{% block b %}", "{{ a @ b }}", "{% include %}",
 	"a\n{% for 1 in b %}x{% endfor %}", "{% for k, 2 in b %}x{% endfor %}", "{% for a in b c %}x{% endfor %}", "{% for a b %}x{% endfor %}", "{% for a in %}x{% endfor %}", "{% for a in b if %}x{% endfor %}",
 	"a {{ x is 2 }}", "{{ x is 'lit' }}", "{{ x is '100%' }}", "{% for '%d items' in xs %}x{% endfor %}", "{{ n is (m % 2) }}", "{% for 12.5 in xs %}x{% endfor %}", "{{ '%s' 1 }}", "{% %s %}", "{{ x is }}", "{{ x is not }}", "{{ a ? b }}", "{{ a ? : }}", "{{ (a }}", "{{ a) }}", "{{ [a }}", "{{ {a: } }}", "{{ {'a' 1} }}", "{{ a[ }}", "{{ a. }}", "{{ a|  }}", "{{ f(a, }}", "{{ a.b( }}",
@@ -723,7 +727,9 @@ func (p *c20) runNamed(res *fw.Result, j int) {
 	names := []string{"bad.html", "dir/bad.twig", "bad", "a.b.c", "übel.txt", long + "/one.twig", long + "/two.twig"}
 	bsrc := broken[j%len(broken)]
 	bname := names[(j/len(broken))%len(names)]
-	if _, perr := parse.Parse(bsrc); perr == nil {
+	if bsrc == c20Missing {
+		// fall through: loading a template that is not there is an error raised while loading a named template
+	} else if _, perr := parse.Parse(bsrc); perr == nil {
 		// not refused by the parser (the statement promises rejection for a few kinds only, checked elsewhere):
 		// there is no load error that would have to name the template
 		res.AddClass("named-source-accepted-by-parser")
@@ -733,6 +739,9 @@ func (p *c20) runNamed(res *fw.Result, j int) {
 	via := []string{"direct", "include", "extends", "import", "embed", "use", "from", "nested-include"}
 	for _, v := range via {
 		src := map[string]string{bname: bsrc, "mid": "{% include '" + bname + "' %}"}
+		if bsrc == c20Missing {
+			delete(src, bname)
+		}
 		main := "main"
 		switch v {
 		case "direct":
